@@ -94,6 +94,18 @@ Definition value_length (tokens : list vtok) : nat :=
 
 Definition push_raw (s : str) (st : fstate) : fstate := mkFs (os_push (fs_out st) s) (fs_field st).
 
+(* one line of a multi-line value: line break, the syntax's text marks, the tokens numbered from [field] *)
+Definition pv_line (c : oconfig) (o : iopts) (maxl : nat) (field : N) (acc : fstate * N) (line : list vtok) : fstate * N :=
+  let '(st, nf) := acc in
+  let st := map_out (fun os => os_push_newline (oc_fmt c) os (Some None)) st in
+  let st := match io_before_text o with [] => st | b => push_raw b st end in
+  let st := push_tokens c line (mkFs (fs_out st) field) in
+  let nf := N.max nf (fs_field st) in
+  (match io_after_text o with
+   | [] => st
+   | a => push_raw a (push_raw (repeat_str [c_space] (maxl - value_length line)) st)
+   end, nf).
+
 Definition push_value (c : oconfig) (o : iopts) (node : anode) (st : fstate) : fstate :=
   if negb (truthy_l (an_value node)) && match an_children node with [] => false | _ => true end then st
   else
@@ -107,16 +119,11 @@ Definition push_value (c : oconfig) (o : iopts) (node : anode) (st : fstate) : f
         let lens := map value_length lines in
         let maxl := fold_left Nat.max lens O in
         let st := map_out (fun os => os_add_level os 1) st in
-        let st :=
-          fold_left (fun st line =>
-                       let st := map_out (fun os => os_push_newline (oc_fmt c) os (Some None)) st in
-                       let st := match io_before_text o with [] => st | b => push_raw b st end in
-                       let st := push_tokens c line st in
-                       match io_after_text o with
-                       | [] => st
-                       | a => push_raw a (push_raw (repeat_str [c_space] (maxl - value_length line)) st)
-                       end) lines st in
-        map_out (fun os => os_add_level os (-1)) st
+        (* all lines of one value are numbered from the same base [field]; the counter advances once, past
+           the largest index (repaired: every line used to advance it) *)
+        let field := fs_field st in
+        let '(st, next_field) := fold_left (pv_line c o maxl field) lines (st, field) in
+        map_out (fun os => os_add_level os (-1)) (mkFs (fs_out st) next_field)
     end.
 
 Fixpoint indent_element (c : oconfig) (o : iopts) (parent : option anode) (node : anode) (index : nat)
